@@ -26,7 +26,7 @@ RULE = ('One case = a generated chart with contracts reading __old__, history st
         'Non-trivial = distinct (chart, k, method) where at k a delayed event was pending, a history memory differed from its '
         'default, or a live __old__ snapshot existed.')
 ASSUMPTIONS = ['context values are picklable (module-level functions, ints, lists)', 'snapshots are taken at macro-step boundaries only']
-REQUIRED_COUNTERS = ['snapshots_with_running_clock', 'snapshots_compared', 'steps_compared_after_snapshot', 'snapshots_with_pending_delayed_event',
+REQUIRED_COUNTERS = ['empty_context_cases', 'pickle_snapshots_protocol_0_or_1', 'snapshots_with_running_clock', 'snapshots_compared', 'steps_compared_after_snapshot', 'snapshots_with_pending_delayed_event',
                      'snapshots_with_live_old', 'snapshots_with_history_memory', 'pickle_snapshots', 'deepcopy_snapshots',
                      'snapshots_with_bound_and_property', 'old_reads_after_restore']
 TIERS = dict(quick=dict(steps=24, ks=4, gen=dict(max_states=10, max_depth=4, max_trans=12)),
@@ -144,10 +144,10 @@ class World:
         return (self.it, self.peer, self.prop)
 
 
-def snapshot(world, method):
+def snapshot(world, method, protocol=None):
     parts = world.parts()
     if method == 'pickle':
-        it, peer, prop = pickle.loads(pickle.dumps(parts))
+        it, peer, prop = pickle.loads(pickle.dumps(parts, protocol=protocol))
     else:
         it, peer, prop = copy.deepcopy(parts)
     w = World.__new__(World)
@@ -209,7 +209,68 @@ def project(step):
     return (step.time, None if ev is None else (type(ev).__name__, ev.name, freeze(ev.data)), tuple(micro))
 
 
+def empty_context_case(acc, rnd, tier):
+    """No initial context, no preamble: the first states are entered while the context is still empty, so what __old__ holds for
+    them is an *empty* snapshot.  No probes (they would populate the context): conditions read __old__ as the mapping it is,
+    original and restored are compared on what they return / raise."""
+    sc = Statechart('empty')
+    root = CompoundState('root', initial='a', on_entry=rnd.choice((None, None, 'r = 1')))
+    root.invariants.append("len(__old__) == 0")
+    sc.add_state(root, None)
+    names = ['a', 'b', 'c']
+    for n in names:
+        st = BasicState(n, on_entry=rnd.choice((None, None, '%s_seen = 1' % n, 'x = 7')))
+        st.invariants.append(rnd.choice(("len(__old__) < 9", "'zzz' not in __old__", "__old__.get('x', 7) == 7",
+                                         "sorted(__old__) == sorted(k for k in __old__)")))
+        if rnd.random() < 0.5:
+            st.postconditions.append("__old__ is not None and len(dict(__old__)) <= 9")
+        sc.add_state(st, 'root')
+    for n in names:
+        sc.add_transition(Transition(n, rnd.choice(names), event='go', action=rnd.choice((None, 'g = 2', 'x = x + 1'))))
+        t = Transition(n, None, event='tick', action=rnd.choice((None, None, 'c = 1')))
+        t.postconditions.append(rnd.choice(("len(__old__) <= 9", "'c' not in __old__ or __old__['c'] == 1")))
+        sc.add_transition(t)
+    script = [rnd.choice(('go', 'tick', 'tick', 'zz', None)) for _ in range(rnd.randint(3, 8))]
+
+    def step(it, ev):
+        if ev is not None:
+            it.queue(ev)
+        try:
+            r = ('step', project(it.execute_once()))
+        except Exception as e:      # noqa
+            r = ('raise', type(e).__name__, str(e)[:120])
+        return r + (tuple(it.configuration), freeze(dict(it.context)))
+    acc.count('empty_context_cases')
+    for kb in range(len(script)):
+        for method, protocol in [('pickle', p) for p in range(pickle.HIGHEST_PROTOCOL + 1)] + [('deepcopy', None)]:
+            orig = Interpreter(sc)
+            restored = None
+            for k, ev in enumerate(script):
+                if k == kb:
+                    try:
+                        restored = pickle.loads(pickle.dumps(orig, protocol=protocol)) if method == 'pickle' else copy.deepcopy(orig)
+                    except Exception as e:      # noqa
+                        acc.violation('C18:snapshot-raised', '%s (protocol %r) of an interpreter that started with an empty context '
+                                      'raised %s: %s' % (method, protocol, type(e).__name__, str(e)[:200]), dict(script=script, k=kb))
+                        return
+                oo = step(orig, ev)
+                if restored is not None:
+                    orr = step(restored, ev)
+                    if orr != oo:
+                        acc.violation('C18:restored-differs', '%s (protocol %r) at boundary %d of an interpreter that started with an '
+                                      'empty context: at step %d the original gives %r, the restored one %r'
+                                      % (method, protocol, kb, k, oo[:3], orr[:3]),
+                                      dict(script=script, k=kb, method=method, protocol=protocol, step=k,
+                                           chart=[(s, sc.state_for(s).on_entry, list(sc.state_for(s).invariants)) for s in sc.states]))
+                        return
+                    acc.count('steps_compared_after_snapshot')
+            acc.count('snapshots_compared')
+            acc.klass('empty_context', (kb, method, protocol, tuple(script)))
+
+
 def run_case(acc, rnd, tier, case):
+    if case % 10 == 7:
+        return empty_context_case(acc, rnd, tier)
     T = TIERS[tier]
     ch = gen_chart(rnd, contracts=True, p_contract=0.45, mode=rnd.choice(('history', 'history', None, 'orth')), p_hist=0.6,
                    p_send=0.5, p_state_send=0.15, delays=(0, 0, 1, 1, 2, 5), allow_inner_history=rnd.random() < 0.5, p_notify=0.2,
@@ -255,14 +316,16 @@ def run_case(acc, rnd, tier, case):
             k = 0
             restored = None
             restored_first = rnd.random() < 0.5     # which of the two is stepped first must not matter: they share nothing
-            ok = True
+            protocol = rnd.choice((None, None, 0, 1, 2, 3, 4, 5))       # every pickle protocol is "serialised with pickle"
+            if method == 'pickle' and protocol is not None and protocol < 2:
+                acc.count('pickle_snapshots_protocol_0_or_1')
             for op in script:
                 if op[0] == 'step' and k == kb and restored is None:
                     try:
-                        restored = snapshot(orig, method)
+                        restored = snapshot(orig, method, protocol)
                     except Exception as e:      # noqa
                         acc.violation('C18:snapshot-raised', '%s of the interpreter at boundary %d raised %s: %s' %
-                                      (method, kb, type(e).__name__, str(e)[:200]), dict(wit, k=kb, method=method))
+                                      (method, kb, type(e).__name__, str(e)[:200]), dict(wit, k=kb, method=method, protocol=protocol))
                         return
                 if op[0] == 'step':
                     if restored is not None and restored_first:
@@ -277,12 +340,12 @@ def run_case(acc, rnd, tier, case):
                         if oo != oc:
                             acc.violation('C18:snapshot-disturbed-original', '%s at boundary %d: the original differs from a run '
                                           'that was never snapshotted at step %d: %s' % (method, kb, k, describe(oc, oo)),
-                                          dict(wit, k=kb, method=method, step=k))
+                                          dict(wit, k=kb, method=method, protocol=protocol, step=k))
                             return
                         if orr != oo:
                             acc.violation('C18:restored-differs', '%s at boundary %d: restored interpreter differs from the original '
                                           'at step %d: %s' % (method, kb, k, describe(oo, orr)),
-                                          dict(wit, k=kb, method=method, step=k))
+                                          dict(wit, k=kb, method=method, protocol=protocol, step=k))
                             return
                         acc.count('steps_compared_after_snapshot')
                         acc.count('old_reads_after_restore', sum(1 for e in orr[5] if e[0] == 'K' and e[3] is not None))
@@ -342,6 +405,7 @@ def running_clock_case(acc, rnd, tier, ch, coder, with_peers, script, nsteps, dg
                 worlds.append(w)
             ctrl, orig = worlds
             restored = None
+            protocol = rnd.choice((None, None, 0, 1, 2, 3, 4, 5))
             k = 0
             for op in script:
                 if op[0] == 'clock':
@@ -349,10 +413,10 @@ def running_clock_case(acc, rnd, tier, ch, coder, with_peers, script, nsteps, dg
                     continue
                 if op[0] == 'step' and k == kb and restored is None:
                     try:
-                        restored = snapshot(orig, method)
+                        restored = snapshot(orig, method, protocol)
                     except Exception as e:      # noqa
                         acc.violation('C18:snapshot-raised', '%s at boundary %d (running clock) raised %s: %s' %
-                                      (method, kb, type(e).__name__, str(e)[:200]), dict(wit, k=kb, method=method))
+                                      (method, kb, type(e).__name__, str(e)[:200]), dict(wit, k=kb, method=method, protocol=protocol))
                         return
                 oc = apply(ctrl, op, k)
                 oo = apply(orig, op, k)
